@@ -8,7 +8,7 @@ package xbinary
 
 func zzC16Bytes() {
 	n := vRange("n", 0, vParam("N"))
-	buf := vBytes("buf", n)
+	buf := zzWindow("buf", n)
 	newBuf := vBool("newBuf")
 	c, res, err := UnmarshalBytes(buf, newBuf)
 	vReach("returned")
@@ -32,7 +32,7 @@ func zzC16Bytes() {
 
 func zzC16String() {
 	n := vRange("n", 0, vParam("N"))
-	buf := vBytes("buf", n)
+	buf := zzWindow("buf", n)
 	newBuf := vBool("newBuf")
 	c, res, err := UnmarshalString(buf, newBuf)
 	vReach("returned")
@@ -50,7 +50,7 @@ func zzC16String() {
 
 func zzC16Uint() {
 	n := vRange("n", 0, vParam("N"))
-	buf := vBytes("buf", n)
+	buf := zzWindow("buf", n)
 	c, _, err := UnmarshalUint(buf)
 	vReach("returned")
 	if err != nil {
@@ -67,7 +67,7 @@ func zzC16Uint() {
 
 func zzC16Fixed() {
 	n := vRange("n", 0, vParam("NF"))
-	buf := vBytes("buf", n)
+	buf := zzWindow("buf", n)
 	switch vChoose("kind", 4) {
 	case 0:
 		c, v, err := UnmarshalByte(buf)
